@@ -303,22 +303,22 @@ prop("C12",
      bounds="(a) one-step induction: every valid abstract state of the family x every timeout "
             "(u64 s, ns) x every time x every Control Change / poll / reset, post-state compared with the "
             "scanner rebuilt from the advanced observer; families: SIM(c) = only the step channel arbitrary (all 16 "
-            "channels, quick) and ALL16 = all 16 channels simultaneously arbitrary (quick: step channels 0, 15 "
-            "and one VERIF_SEED-chosen; thorough: all 16), the step channel generated last on a shared base "
+            "channels, quick) and ALL16 = all 16 channels simultaneously arbitrary (quick: step channel 0 and "
+            "one VERIF_SEED-chosen; thorough: all 16), the step channel generated last on a shared base "
             "plus an order lemma that this equals the canonical concretisation; (b) literal "
             "sentences of the documented grammar: number selection in either order + up to 3 units with "
             "symbolic early polls; (c) encode/feed/poll round trip of every ParameterNumberMessage in "
             "either byte order from every family state; unwind 17",
-     outside="quick tier: an interference between channels that shows only when the step channel is none of "
-             "0, 15 and the seed-chosen one (thorough: none); sentences longer than 3 units are covered only "
+     outside="quick tier: an interference between channels that shows only when the step channel is neither "
+             "0 nor the seed-chosen one (thorough: none); sentences longer than 3 units are covered only "
              "through the induction step")
 prop("C13",
-     bounds="poll step from every valid abstract state of the family (SIM x 16, ALL16 for 3 channels; "
+     bounds="poll step from every valid abstract state of the family (SIM x 16, ALL16 for 2 step channels; "
             "thorough: ALL16 x 16) with "
             "symbolic now >= arrival and symbolic timeout over the full Duration domain (0, tiny, "
             "u64::MAX seconds); feed at two arbitrary instants returns identical outputs; unwind 17",
      outside="the real std::time::Instant (replaced by the mock clock hook); quick tier: multi-channel "
-             "states only for step channels 0, 15 and the seed-chosen one")
+             "states only for step channels 0 and the seed-chosen one")
 prop("C14",
      bounds="feed / poll / reset step from every valid abstract state of the family with the C14 clauses "
             "asserted on (pre-state, event, real outputs) independently of the observer's transition "
@@ -327,12 +327,12 @@ prop("C14",
      outside="as C12")
 prop("C15",
      bounds="all three scanners: post-state equals the observer with ONLY the addressed channel advanced, "
-            "for families CC14: ALL16; (N)RPN: TRI (quick) / ALL16 (thorough); polling: SIM x 16 + ALL16 for 3 step channels "
+            "for families CC14: ALL16; (N)RPN: TRI (quick) / ALL16 (thorough); polling: SIM x 16 + ALL16 for 2 step channels "
             "(quick) / ALL16 x 16 (thorough); output channel = input channel; system messages (all 16 status bytes "
             "0xF0-0xFF x all data) report nothing and leave every family state equal; literal 4-event "
             "interleavings on channel pairs vs. own scanners",
      outside="(N)RPN quick tier: interference needing four or more non-initial channels; polling quick "
-             "tier: interference visible only for step channels other than 0, 15 and the seed-chosen one")
+             "tier: interference visible only for step channels other than 0 and the seed-chosen one")
 prop("C16",
      bounds="from every family state of each scanner: every non-Control-Change message (status symbolic, "
             "all data) and every Control Change with a non-contributing controller number (all values): "
@@ -347,13 +347,13 @@ prop("C17",
             "because the scanners are plain Copy values whose behaviour is a function of the compared state",
      outside="as C15")
 def _pick(n):
-    """quick tier: channel 0, channel 15 and n seed-chosen further channels"""
+    """quick tier: channel 0 and n seed-chosen further channels (n = 0: channels 0 and 15)"""
     def f(seed, c):
-        chosen = {0, 15}
+        chosen = {0, 15} if n == 0 else {0}
         x = seed * 2654435761 % (1 << 32)
         for _ in range(n):
             x = (x * 1103515245 + 12345) % (1 << 31)
-            chosen.add((x >> 8) % 16)
+            chosen.add((x >> 8) % 15 + 1)
         return c in chosen
     return f
 
@@ -414,8 +414,7 @@ for (_a, _b) in [(0, 1), (7, 8), (15, 0), (3, 11)]:
     add("poll_literal_%d_%d" % (_a, _b), "poll::literal", ["C12", "C13", "C14", "C15", "C17", "C18"],
         "literal histories from new(timeout): 4 symbolic events (any contributing CC, poll or reset, symbolic "
         "times) on channels %d/%d: outputs equal the observer's" % (_a, _b),
-        args="%d, %d" % (_a, _b), unwind=17, cost=200, tier="quick" if _a in (0, 15) else "thorough",
-        timeout=3600)
+        args="%d, %d" % (_a, _b), unwind=17, cost=500, tier="thorough", timeout=5400)
 add("poll_twin", "poll::twin", ["C12", "C13", "C14", "C15", "C16", "C17"], "witness twin",
     expect="witness_fail", unwind=17)
 
